@@ -93,6 +93,19 @@ def gen(ctx: Ctx, n):
         if rng.random() < .1:
             scripts = [bytes(rng.choice([rng.randrange(256), rng.choice(list(G.names().values()))]) for _ in range(rng.randrange(0, 49)))
                        for _ in range(rng.randrange(1, 5))]
+        if rng.random() < .1:
+            # every kind of instruction failure (all opcodes, chaos operands: float / integer overflow, bad encodings, bad points,
+            # truncated operands ...) as witness: whatever exception the instruction raises, the verdict is False - never a raise
+            gz = G.ProgGen(rng, cfg, cache, keys, clean=False, max_depth=2)
+            scripts = [gz.program(rng.choice([1, 2, 3]))] + ([lock] if rng.random() < .7 else [])
+        if rng.random() < .03:
+            import struct
+            f32 = lambda x: struct.pack('!f', x)
+            zoo = [G.push(f32(float('inf'))) + op('FLOAT_TO_INT'), G.push(f32(float('-inf'))) + op('FLOAT_TO_INT'), G.push(f32(float('nan'))) + op('FLOAT_TO_INT'),
+                   G.push(f32(3.4e38)) * 2 + op('ADD_FLOATS') + b'\x02', G.push(f32(3.4e38)) + G.push(f32(-3.4e38)) + op('SUBTRACT_FLOATS') + b'\x02',
+                   G.push(b'\x7f' + b'\xff' * 200) + op('INT_TO_FLOAT'), G.push(f32(1e-30)) + op('DIV_FLOAT') + f32(0.0), G.push(f32(3e38)) + op('DIV_FLOAT') + f32(1e-30),
+                   G.push(f32(1.0)) + op('MOD_FLOAT') + f32(0.0), G.push(b'\x01') + op('DIV_INT') + b'\x01\x00', G.push(b'\xff\xfe') + op('SPLIT_STR') if 'SPLIT_STR' in G.names() else b'']
+            scripts = [rng.choice(zoo) + rng.choice([b'', op('TRUE')])] + ([lock] if rng.random() < .5 else [])
         if rng.random() < .04:
             # call budget spread over the scripts of the list: a function defined by the first script, a few calls in each
             # script, and a call limit at / just below / just above the total ("spending call budget" must carry forward)
